@@ -660,4 +660,121 @@ theorem desc_list_roundtrip (p : PDesc) (hs : p.d.sym ≠ .none) (hst : stereoRe
     | b :: r' => simp [hsum]
 
 
+/-! ## mixture specifiers -/
+
+theorem dropWhile_append_all {p : Char → Bool} (a s : Str) (ha : ∀ c ∈ a, p c = true) : List.dropWhile p (a ++ s) = List.dropWhile p s := by
+  induction a with
+  | nil => rfl
+  | cons x xs ih =>
+    have hx := ha x List.mem_cons_self
+    simp only [List.cons_append, List.dropWhile_cons, hx, if_true]
+    exact ih (fun c hc => ha c (List.mem_cons_of_mem _ hc))
+
+/-- stripping characters of a set from both ends of `a ++ t ++ b` gives `t` when `a` and `b` consist of such characters and `t` neither
+    starts nor ends with one -/
+theorem stripBy_sandwich (p : Char → Bool) (a t b : Str) (ha : ∀ c ∈ a, p c = true) (hb : ∀ c ∈ b, p c = true)
+    (x : Char) (xs : Str) (hx : t = x :: xs) (hhead : p x = false) (y : Char) (ys : Str) (hy : t.reverse = y :: ys) (hlast : p y = false) :
+    stripBy p (a ++ t ++ b) = t := by
+  unfold stripBy rstripBy lstripBy
+  rw [List.append_assoc, dropWhile_append_all a _ ha]
+  have h1 : List.dropWhile p (t ++ b) = t ++ b := by
+    rw [hx]; simp only [List.cons_append, List.dropWhile_cons, hhead]; rfl
+  rw [h1, List.reverse_append, dropWhile_append_all b.reverse _ (fun c hc => hb c (List.mem_reverse.1 hc)), hy]
+  simp only [List.dropWhile_cons, hlast]
+  rw [show (if false = true then List.dropWhile p ys else y :: ys) = y :: ys from rfl, ← hy, List.reverse_reverse]
+
+/-- what the mixture round trip needs to know about the printed form of a mass / percentage (decidable for every concrete number):
+it reads back as the number, holds no `|`, `%` or white space, and neither starts nor ends with `.` -/
+def MixNumOK (w : Rat) : Prop :=
+  NumTextOK w ∧ (∀ c ∈ numStr w, c ≠ '%') ∧ (numStr w).head? ≠ some '.' ∧ (numStr w).reverse.head? ≠ some '.'
+
+theorem MixNumOK.ends {w : Rat} (h : MixNumOK w) :
+    (∃ x xs, numStr w = x :: xs ∧ x ≠ '.') ∧ (∃ y ys, (numStr w).reverse = y :: ys ∧ y ≠ '.') := by
+  obtain ⟨⟨-, hne, -⟩, -, hh, hl⟩ := h
+  constructor
+  · cases hs : numStr w with
+    | nil => exact absurd hs hne
+    | cons x xs => rw [hs] at hh; exact ⟨x, xs, rfl, fun hx => hh (by simp [hx])⟩
+  · cases hs : (numStr w).reverse with
+    | nil => exact absurd (List.reverse_eq_nil_iff.1 hs) hne
+    | cons y ys => rw [hs] at hl; exact ⟨y, ys, rfl, fun hy => hl (by simp [hy])⟩
+
+theorem contains_iff (s : Str) (c : Char) : s.contains c = true ↔ c ∈ s := List.contains_iff_mem
+
+/-- **C01 (mixture specifier with an absolute mass)**: `.|m|` reads back as the mass `m` -/
+theorem mixture_abs_roundtrip (a : Rat) (rel : Option Rat) (h0 : 0 ≤ a) (hok : MixNumOK a) :
+    parseMixture (printMix { abs := some a, rel := rel } true) = .ok { abs := some a } := by
+  obtain ⟨⟨x, xs, hx, hxd⟩, ⟨y, ys, hy, hyd⟩⟩ := hok.ends
+  obtain ⟨⟨hpf, hne, hchars⟩, hpct, -, -⟩ := hok
+  have hprint : printMix { abs := some a, rel := rel } true = ['.', '|'] ++ numStr a ++ ['|'] := by
+    simp [printMix]
+  rw [hprint]
+  have hxm : x ∈ numStr a := by rw [hx]; exact List.mem_cons_self
+  have hym : y ∈ numStr a := by
+    have : y ∈ (numStr a).reverse := by rw [hy]; exact List.mem_cons_self
+    exact List.mem_reverse.1 this
+  have hstrip : stripChars ".|".toList (['.', '|'] ++ numStr a ++ ['|']) = numStr a := by
+    unfold stripChars
+    refine stripBy_sandwich _ ['.', '|'] (numStr a) ['|'] ?_ ?_ x xs hx ?_ y ys hy ?_
+    · intro c hc; simp at hc; rcases hc with rfl | rfl <;> decide
+    · intro c hc; simp at hc; subst hc; decide
+    · have := (hchars x hxm).1
+      simp [hxd, this]
+    · have := (hchars y hym).1
+      simp [hyd, this]
+  have hnopct : (['.', '|'] ++ numStr a ++ ['|']).contains '%' = false := by
+    cases h : (['.', '|'] ++ numStr a ++ ['|']).contains '%' with
+    | false => rfl
+    | true =>
+      have := (contains_iff _ _).1 h
+      simp only [List.mem_append, List.mem_cons, List.mem_nil_iff, or_false] at this
+      rcases this with (h1 | h1) | h1
+      · rcases h1 with h1 | h1 <;> cases h1
+      · exact absurd rfl (hpct _ h1)
+      · cases h1
+  unfold parseMixture
+  simp only [List.cons_append, List.nil_append] at hnopct hstrip ⊢
+  simp only [hnopct, hstrip, hpf]
+  have : ¬ a < 0 := by exact not_lt.mpr h0
+  simp [this]
+
+/-- **C01 (mixture specifier with a percentage)**: `.|p%|` reads back as the percentage `p` -/
+theorem mixture_rel_roundtrip (r : Rat) (h0 : 0 ≤ r) (h100 : r ≤ 100) (hok : MixNumOK r) :
+    parseMixture (printMix { abs := none, rel := some r } true) = .ok { rel := some r } := by
+  obtain ⟨⟨x, xs, hx, hxd⟩, ⟨y, ys, hy, hyd⟩⟩ := hok.ends
+  obtain ⟨⟨hpf, hne, hchars⟩, hpct, -, -⟩ := hok
+  have hprint : printMix { abs := none, rel := some r } true = ['.', '|'] ++ numStr r ++ ['%', '|'] := by
+    simp [printMix]
+  rw [hprint]
+  have hxm : x ∈ numStr r := by rw [hx]; exact List.mem_cons_self
+  have hym : y ∈ numStr r := by
+    have : y ∈ (numStr r).reverse := by rw [hy]; exact List.mem_cons_self
+    exact List.mem_reverse.1 this
+  have hstrip : stripChars ".|%".toList (['.', '|'] ++ numStr r ++ ['%', '|']) = numStr r := by
+    unfold stripChars
+    refine stripBy_sandwich _ ['.', '|'] (numStr r) ['%', '|'] ?_ ?_ x xs hx ?_ y ys hy ?_
+    · intro c hc; simp at hc; rcases hc with rfl | rfl <;> decide
+    · intro c hc; simp at hc; rcases hc with rfl | rfl <;> decide
+    · have h1 := (hchars x hxm).1
+      have h2 := hpct x hxm
+      simp [hxd, h1, h2]
+    · have h1 := (hchars y hym).1
+      have h2 := hpct y hym
+      simp [hyd, h1, h2]
+  have hpctin : (['.', '|'] ++ numStr r ++ ['%', '|']).contains '%' = true := by
+    apply (contains_iff _ _).2; simp
+  unfold parseMixture
+  simp only [List.cons_append, List.nil_append] at hpctin hstrip ⊢
+  simp only [hpctin, hstrip, hpf]
+  have : ¬ (r < 0 ∨ r > 100) := by
+    intro h; rcases h with h | h
+    · exact absurd h (not_lt.mpr h0)
+    · exact absurd h (not_lt.mpr h100)
+  simp [this]
+
+/-- non-vacuity: the printed forms of 450000, 12.5 and 2.5e-05 satisfy the side condition -/
+example : MixNumOK 450000 ∧ MixNumOK (25 / 2) ∧ MixNumOK (1 / 40000) := by
+  refine ⟨⟨⟨?_, ?_, ?_⟩, ?_, ?_, ?_⟩, ⟨⟨?_, ?_, ?_⟩, ?_, ?_, ?_⟩, ⟨⟨?_, ?_, ?_⟩, ?_, ?_, ?_⟩⟩ <;> decide +kernel
+
+
 end GBS.P
